@@ -31,6 +31,8 @@ type historyCfg struct {
 	// keep behaving identically (metamorphic relation).
 	shadowOps func(g *Gen) []Op
 	shadowP   int
+	// before runs once per process before the generated histories (enumerative parts)
+	before func(t *testing.T, st *Stats)
 }
 
 // decodedLedger renders a shard with balance entries decoded to (value, frozen, metadata): two ledgers that differ only
@@ -115,6 +117,9 @@ func runHistories(t *testing.T, cfg historyCfg) {
 	known := LoadKnown(cfg.prop)
 	props := append([]string{cfg.prop}, cfg.also...)
 	histories := 0
+	if cfg.before != nil {
+		cfg.before(t, st)
+	}
 
 	rapid.Check(t, func(rt *rapid.T) {
 		spec := GenSpec(rt)
